@@ -306,6 +306,7 @@ def main():
                         L.do_edit(z, e, j)
             impl = ["ok", L.meta(td)]
         except Exception as e:  # noqa: BLE001
+            L.slow_is_infra(e)
             impl, exc = ["err", L.err_class(e)], e
         run.count("sequential.outcome", impl[0] if impl[0] == "ok" else "err:" + impl[1])
         run.corr("sequential", case, impl, model)
@@ -323,6 +324,7 @@ def main():
                 L.do_edit(zr, e, j)
             L.write_back(ref, op2, zr, was)
         except Exception as e:  # noqa: BLE001
+            L.slow_is_infra(e)
             run.count("sequential.reference_failed", type(e).__name__)
             continue
         bad = L.same_td(td, ref)
@@ -361,6 +363,7 @@ def main():
                         L.do_edit(y, e, j)
                     want = y.clone()
         except Exception as e:  # noqa: BLE001
+            L.slow_is_infra(e)
             run.oracle_fail("ctx_temp", case, f"block on a temporary original raised {type(e).__name__}: {str(e)[:140]}", f"temp:{op1[0]}:raises:{L.err_class(e)}")
             continue
         run.count("temp.original_alive", alive)
@@ -380,7 +383,7 @@ def main():
         st = L.gen_state(rng, rank=rng.choice([1, 2, 3, 3, 4]), for_op=n1 if n1 == "unflatten_keys" else None)
         lock = rng.choice(["no", "no", "stack", "members", "relocked"])
         lsd = rng.randrange(len(st[0]))          # the stack dim of the lazy original: every position, ranks 1-4
-        st = (tuple(max(d, 2) if j == lsd else d for j, d in enumerate(st[0])), None, [k for k in st[2]], lock != "no")
+        st = (tuple(max(d, 2) if j == lsd else d for j, d in enumerate(st[0])), (st[1] if rng.random() < 0.5 else None), [k for k in st[2]], lock != "no")
         op1 = L.gen_canonical(rng, st, n1)
         sp1 = rng.choice(L.spellings(op1, st))
         edits = rng.choice([[], [("value",)], [("value",)]] if st[3] else [[], [("value",)], [("add", ("z",))], [("rebind", "new")], [("swap",)]])
@@ -390,7 +393,7 @@ def main():
         try:
             lz = L.build_lazy(st, lock, lsd)
             # the reference is the DENSE tensordict with the same content (the by-hand inverse must not go through _lazy.py)
-            ref = L.build((st[0], None, st[2], st[3]))
+            ref = L.build((st[0], st[1], st[2], st[3]))
             members = list(lz.tensordicts)
             held = [{k: m.get(k) for k in L.leaf_keys(m)} for m in members]
             with L.time_limit(30.0):
@@ -399,6 +402,7 @@ def main():
                 for j, e in enumerate(edits):
                     L.do_edit(y, e, j)
         except Exception as e:  # noqa: BLE001
+            L.slow_is_infra(e)
             run.count("lazy.outcome", "refused:" + type(e).__name__)
             continue
         # phase 2: a block whose body completed must exit normally
@@ -406,6 +410,7 @@ def main():
             with L.time_limit(30.0):
                 cm.__exit__(None, None, None)
         except Exception as e:  # noqa: BLE001
+            L.slow_is_infra(e)
             if op1[0] == "squeeze" and op1[1] is None:
                 run.count("lazy.outcome", "implicit-squeeze")
                 continue
@@ -426,6 +431,7 @@ def main():
             L.write_back(ref, op1, yr, was)
             bad = L.same_td(lz.to_tensordict() if hasattr(lz, "to_tensordict") else lz, ref.to_tensordict() if hasattr(ref, "to_tensordict") else ref)
         except Exception as e:  # noqa: BLE001
+            L.slow_is_infra(e)
             run.count("lazy.reference_failed", type(e).__name__)
             continue
         if bad:
@@ -468,6 +474,7 @@ def main():
                     for j, e in enumerate(edits):
                         L.do_edit(y, e, j)
         except Exception as e:  # noqa: BLE001
+            L.slow_is_infra(e)
             if op1[0] == "squeeze" and op1[1] is None:
                 run.count("tc.outcome", "implicit-squeeze")
                 continue
